@@ -424,10 +424,44 @@ def pure_next(ex, st, it):
     raise Unsupported('lazy next over %r' % (it,))
 
 
+def split_any_all(ex, st, s, sep, clo, kind):
+    """s.split(<one byte>).any/all(closure) without forking on the segmentation: every candidate segment [i, j) is
+    passed to the closure (concrete length, so cheap) and the results are combined under 'is a segment' guards"""
+    f = s.flat(); n = f.cap
+    pairs = [(i, j) for i in range(n + 1) for j in range(i, n + 1)]
+    issep = [bv_eq(b, sep, 8) for b in f.bs]
+
+    def is_seg(i, j):
+        cs = [bv_ule(j, f.ln, LW)]
+        if i > 0: cs.append(issep[i - 1])
+        cs.append(b_or(bv_eq(f.ln, j, LW), b_and(bv_ult(j, f.ln, LW), issep[j]) if j < n else False))
+        for k in range(i, j): cs.append(b_not(issep[k]))
+        return b_and(*cs)
+
+    def step(k, acc):
+        while k < len(pairs):
+            i, j = pairs[k]
+            g = is_seg(i, j)
+            if g is False: k += 1; continue
+            seg = SymStr((Atom(j - i, f.bs[i:j]),))
+
+            def cont(ex_, st_, r, k=k, g=g, acc=acc):
+                term = b_and(g, r) if kind == 'any' else b_and(g, b_not(r))
+                return LazyR(lambda: step(k + 1, b_or(acc, term)))
+            return CallFn(clo, [seg], cont)
+        return acc if kind == 'any' else b_not(acc)
+    return step(0, False)
+
+
 @model(r"^<.* as Iterator>::(any|all|position)$")
 def m_iter_any(ex, st, c):
     it = D(ex, st, c.args[0]); clo = c.args[1]
     kind = strip_generics(c.callee).rsplit('::', 1)[1]
+    if kind in ('any', 'all') and isinstance(it, Opaque) and it.tag == 'Split' and it.data[0] is not None:
+        s_, p_ = it.data
+        pc_ = p_.concrete()
+        if pc_ is not None and len(pc_) == 1 and s_.concrete() is None and s_.cap <= 24:
+            return split_any_all(ex, st, s_, pc_[0], clo, kind)
 
     def step(it, n):
         if n > ex.max_block_visits: return StopR('bound:unroll', 'Iterator::%s' % kind)
@@ -494,13 +528,82 @@ def m_matches_count(ex, st, c):
 
 @model(r'^str::<impl str>::replace$', r'^str::<impl str>::replacen$', r'^alloc::str::<impl str>::replace$')
 def m_replace(ex, st, c):
-    s = D(ex, st, c.args[0]); frm = as_str(ex, st, c.args[1]); to = as_str(ex, st, c.args[2])
+    s = D(ex, st, c.args[0]); to = as_str(ex, st, c.args[2])
+    if isinstance(c.args[1], Closure):
+        return replace_by_pred(ex, st, s, c.args[1], to)
+    frm = as_str(ex, st, c.args[1])
     limit = None
     if c.callee.split('::<')[0].endswith('replacen') or 'replacen' in c.callee:
         n = D(ex, st, c.args[3])
         if not n.conc: raise Unsupported('replacen symbolic count')
         limit = n.v
     return replace_str(s, frm, to, limit)
+
+
+def compact(f, keeps):
+    """subsequence of atom f's bytes selected by keeps[i] (bool / z3 Bool), as one atom"""
+    n = len(keeps)
+    if all(isinstance(k, bool) for k in keeps):
+        bs = [f.bs[i] for i in range(n) if keeps[i]]
+        return SymStr((Atom(len(bs), tuple(bs)),))
+    rank = []; r = 0
+    for k in keeps:
+        rank.append(r)
+        r = r if k is False else ite_bv(k, bv_add(r, 1, 8), r, 8)
+    total = r
+    out = []
+    for j in range(n):
+        b = 0
+        for i in range(n - 1, j - 1, -1):
+            if keeps[i] is False: continue
+            sel = b_and(keeps[i], bv_eq(rank[i], j, 8))
+            if sel is False: continue
+            b = ite_bv(sel, f.bs[i], b, 8)
+        out.append(b)
+    ln = total if isinstance(total, int) else z3.ZeroExt(LW - 8, total)
+    return SymStr((Atom(ln, tuple(out)),))
+
+
+def replace_by_pred(ex, st, s, clo, to):
+    """str::replace(|c| pred(c), to): the closure is run (from its MIR) once per byte; it must not fork"""
+    f = s.flat(); n = f.cap
+    if n == 0: return s
+    tf = to.flat()
+    if tf.conc_len and tf.ln == 0 and n < 250:
+        # deletion: compact the kept bytes with 8-bit rank arithmetic (one atom, no rope of 0/1-length pieces)
+        def dstep(i, keeps):
+            if i == n: return compact(f, keeps)
+
+            def cont(ex_, st_, r, i=i, keeps=keeps):
+                k = simp_bool(b_and(bv_ult(i, f.ln, LW), b_not(r)))
+                return LazyR(lambda: dstep(i + 1, keeps + [k]))
+            return CallFn(clo, [char_of(f.bs[i])], cont)
+        return dstep(0, [])
+
+    def step(i, segs):
+        if i == n: return SymStr(segs)
+
+        def cont(ex_, st_, r, i=i, segs=segs):
+            inr = bv_ult(i, f.ln, LW)
+            hit = b_and(inr, r); keep = b_and(inr, b_not(r))
+            hit = simp_bool(hit); keep = simp_bool(keep)
+            if hit is True: seg = list(to.segs)
+            elif hit is False:
+                if keep is True: seg = [Atom(1, (f.bs[i],))]
+                elif keep is False: seg = []
+                else: seg = [Atom(ite_bv(keep, 1, 0, LW), (ite_bv(keep, f.bs[i], 0, 8),))]
+            else:
+                capn = max(tf.cap, 1)
+                ln = ite_bv(hit, tf.ln, ite_bv(keep, 1, 0, LW), LW)
+                bs = []
+                for k in range(capn):
+                    tb = tf.bs[k] if k < tf.cap else 0
+                    kb = ite_bv(keep, f.bs[i], 0, 8) if k == 0 else 0
+                    bs.append(ite_bv(hit, tb, kb, 8))
+                seg = [Atom(ln, tuple(bs))]
+            return LazyR(lambda: step(i + 1, segs + seg))
+        return CallFn(clo, [char_of(f.bs[i])], cont)
+    return step(0, [])
 
 
 def replace_str(s, frm, to, limit=None):
@@ -512,64 +615,76 @@ def replace_str(s, frm, to, limit=None):
     if c is not None and fc is not None:
         parts = c.split(fc) if limit is None else c.split(fc, limit)
         return SymStr.join([SymStr.const(x) for x in parts], to)
+    tc = to.concrete()
+    if fc is not None and tc is not None and fc == tc: return s
     f = s.flat()
-    if f.conc_len:
-        # concrete length, symbolic bytes: scan left to right with a mux per position -- the output length is symbolic.
-        # Build as a rope of per-position atoms: at position i (not covered) either emit `to` (match) or byte i.
-        n = f.ln
-        segs = []; rem = 0; count = 0
+    if to.flat().conc_len and to.flat().ln == pl:
+        # same-length replacement: positions are preserved; byte i is rewritten when a (non-overlapping, leftmost) match covers it
+        n = f.cap; tb = to.flat().bs
+        out = list(f.bs); rem = 0; count = 0
+        starts = []
         for i in range(n):
-            m = s.match_at(i, frm) if i + pl <= n else False
+            m = s.match_at(i, frm)
             free = bv_eq(rem, 0, 8)
             start = b_and(free, m)
             if limit is not None:
                 start = b_and(start, bv_ult(count, limit, LW))
                 count = count if start is False else ite_bv(start, bv_add(count, 1, LW), count, LW)
-            # emitted at i: if start -> `to` ; elif free -> byte i ; else nothing
-            tf = to.flat()
-            if start is False:
-                if free is True: segs.append(Atom(1, (f.bs[i],)))
-                elif free is not False:
-                    segs.append(Atom(ite_bv(free, 1, 0, LW), (ite_bv(free, f.bs[i], 0, 8),)))
-            elif start is True:
-                segs.extend(to.segs)
-            else:
-                # symbolic choice between `to` (len tl) and single byte / nothing
-                capn = max(tf.cap, 1)
-                ln_keep = ite_bv(free, 1, 0, LW)
-                ln = ite_bv(start, tf.lnz() if not tf.conc_len else tf.ln, ln_keep, LW)
-                bs = []
-                for k in range(capn):
-                    tb = tf.bs[k] if k < tf.cap else 0
-                    kb = ite_bv(free, f.bs[i], 0, 8) if k == 0 else 0
-                    bs.append(ite_bv(start, tb, kb, 8))
-                segs.append(Atom(ln, tuple(bs)))
+            starts.append(start)
             dec = 0 if (isinstance(rem, int) and rem == 0) else ite_bv(free, 0, bv_sub(rem, 1, 8), 8)
             rem = dec if start is False else ite_bv(start, pl - 1, dec, 8)
-        return SymStr(segs)
-    # symbolic length: same scan guarded by i < len
-    n = f.cap; segs = []; rem = 0; count = 0
-    tf = to.flat()
+        for i in range(n):
+            b = f.bs[i]
+            for k in range(pl):
+                if i - k < 0: break
+                st_ = starts[i - k]
+                if st_ is False: continue
+                b = ite_bv(st_, tb[k], b, 8)
+            out[i] = b
+        return SymStr((Atom(f.ln, tuple(out), f.minlen),))
+    # general case: leftmost non-overlapping scan, then compaction of the emitted bytes with 8-bit offsets (one atom)
+    n = f.cap; tf = to.flat()
+    if not tf.conc_len: raise Unsupported('replace with symbolic-length replacement')
+    tl = tf.ln
+    cap_out = n if tl <= pl else (n // pl) * tl + (n % pl)
+    if cap_out > 250: raise Unsupported('replace output too long for the 8-bit offset circuit')
+    rem = 0; count = 0
+    emits = []      # per input position: (start, keep)
     for i in range(n):
         inr = bv_ult(i, f.ln, LW)
-        m = s.match_at(i, frm)
+        mt = s.match_at(i, frm)
         free = bv_eq(rem, 0, 8)
-        start = b_and(free, m)
+        start = b_and(free, mt)
         if limit is not None:
             start = b_and(start, bv_ult(count, limit, LW))
             count = count if start is False else ite_bv(start, bv_add(count, 1, LW), count, LW)
-        keep = b_and(free, inr)
-        capn = max(tf.cap if start is not False else 0, 1)
-        ln = ite_bv(start, tf.lnz() if not tf.conc_len else tf.ln, ite_bv(keep, 1, 0, LW), LW) if start is not False else ite_bv(keep, 1, 0, LW)
-        bs = []
-        for k in range(capn):
-            tb = tf.bs[k] if k < tf.cap else 0
-            kb = ite_bv(keep, f.bs[i], 0, 8) if k == 0 else 0
-            bs.append(ite_bv(start, tb, kb, 8) if start is not False else kb)
-        segs.append(Atom(ln, tuple(bs)))
+        keep = b_and(free, b_not(start), inr)
+        emits.append((simp_bool(start) if not isinstance(start, bool) else start, simp_bool(keep) if not isinstance(keep, bool) else keep))
         dec = 0 if (isinstance(rem, int) and rem == 0) else ite_bv(free, 0, bv_sub(rem, 1, 8), 8)
         rem = dec if start is False else ite_bv(start, pl - 1, dec, 8)
-    return SymStr(segs)
+    if all(st_ is False for st_, _ in emits): return s
+    offs = []; o = 0
+    for st_, kp in emits:
+        offs.append(o)
+        inc = ite_bv(st_, tl, ite_bv(kp, 1, 0, 8), 8)
+        o = bv_add(o, inc, 8)
+    total = o
+    out = []
+    for j in range(cap_out):
+        b = 0
+        for i in range(n - 1, -1, -1):
+            st_, kp = emits[i]
+            if kp is not False:
+                sel = b_and(kp, bv_eq(offs[i], j, 8))
+                if sel is not False: b = ite_bv(sel, f.bs[i], b, 8)
+            if st_ is not False:
+                for k in range(tl):
+                    if j - k < 0: continue
+                    sel = b_and(st_, bv_eq(offs[i], j - k, 8))
+                    if sel is not False: b = ite_bv(sel, tf.bs[k], b, 8)
+        out.append(b)
+    ln = total if isinstance(total, int) else z3.ZeroExt(LW - 8, total)
+    return SymStr((Atom(ln, tuple(out)),))
 
 
 def is_ws(b):
@@ -781,6 +896,10 @@ def m_and_then(ex, st, c):
     return CallFn(c.args[1], [v.fields[0]], (lambda ex_, st_, r: Some(r)) if is_map else (lambda ex_, st_, r: r))
 
 
+@model(r'^<Option<.*> as From<.*>>::from$')
+def m_option_from(ex, st, c): return Some(c.args[0])
+
+
 @model(r'^<Option<.*> as PartialEq>::eq$')
 def m_opt_eq(ex, st, c): return values_eq(ex, st, c.args[0], c.args[1])
 
@@ -827,7 +946,7 @@ def parse_int(s, ty):
         else:
             accz = bvval(acc, W) if isinstance(acc, int) else acc
             dz = bvval(d, W) if isinstance(d, int) else d
-            nxt = accz * 10 + dz
+            nxt = (accz << 3) + (accz << 1) + dz     # acc*10 + d without a multiplier
             acc = z3.If(zb(digit_here), nxt, accz)
             limit = bvval((1 << (w - 1)) if sg else (1 << w) - 1, W)
             # magnitude limit: unsigned max, or 2^(w-1) (negatives reach it, positives 2^(w-1)-1)
@@ -1065,7 +1184,7 @@ def to_iter(ex, st, v, callee=''):
         return Iter('vec', [Int('u8', b) for b in f.bs])
     if isinstance(v, Struct) and v.ty.endswith('Range'): return Opaque('Range', (v.fields[0], v.fields[1]))
     if isinstance(v, Opaque) and v.tag in ('Range', 'RangeInclusive', 'Split', 'HashMap', 'SkipChars', 'RevChars', 'Bytes', 'Incoming', 'Args'):
-        if v.tag == 'HashMap': return Opaque('HashIter', (v.data, 0))
+        if v.tag == 'HashMap': return Iter('vec', [Tup(kv) for kv in v.data])
         return v
     raise Unsupported('into_iter of %r (%s)' % (v, callee))
 
@@ -1417,6 +1536,60 @@ def m_panic(ex, st, c):
 
 @model(r'^std::hint::black_box$', r'^core::hint::black_box$', r'^std::mem::drop$', r'^core::mem::drop$', r'^drop$')
 def m_drop(ex, st, c): return UNIT if 'drop' in c.callee else c.args[0]
+
+
+# ------------------------------------------------------------------ HashMap<String, String> as an association list
+@model(r'^HashMap::<.*>::new$', r'^HashMap::new$', r'^<HashMap<.*> as Default>::default$')
+def m_hm_new(ex, st, c): return Opaque('HashMap', ())
+
+
+@model(r'^HashMap::<.*>::insert$', r'^HashMap::insert$')
+def m_hm_insert(ex, st, c):
+    hm = D(ex, st, c.args[0]); k = D(ex, st, c.args[1]); v = c.args[2]
+    items = hm.data
+    alts = []; none_cond = True
+    for i, (k2, v2) in enumerate(items):
+        same = simp_bool(values_eq(ex, st, k, k2))
+        if same is False: continue
+        cond = b_and(none_cond, same)
+        new = items[:i] + ((k2, v),) + items[i + 1:]
+        alts.append((cond, Some(v2), (c.args[0], Opaque('HashMap', new))))
+        none_cond = b_and(none_cond, b_not(same))
+        if same is True: break
+    if none_cond is not False:
+        alts.append((none_cond, NONE, (c.args[0], Opaque('HashMap', items + ((k, v),)))))
+    return ForkStore(alts)
+
+
+@model(r'^HashMap::<.*>::get$', r'^HashMap::get$', r'^HashMap::<.*>::contains_key$', r'^HashMap::contains_key$')
+def m_hm_get(ex, st, c):
+    hm = D(ex, st, c.args[0]); k = D(ex, st, c.args[1])
+    ck = 'contains_key' in c.callee
+    alts = []; none_cond = True
+    for (k2, v2) in hm.data:
+        same = simp_bool(values_eq(ex, st, k, k2))
+        if same is False: continue
+        alts.append((b_and(none_cond, same), True if ck else Some(v2)))
+        none_cond = b_and(none_cond, b_not(same))
+        if same is True: break
+    if none_cond is not False: alts.append((none_cond, False if ck else NONE))
+    return Fork(alts)
+
+
+@model(r'^HashMap::<.*>::len$', r'^HashMap::len$')
+def m_hm_len(ex, st, c): return usize(len(D(ex, st, c.args[0]).data))
+
+
+@model(r'^<HashMap<.*> as Clone>::clone$')
+def m_hm_clone(ex, st, c): return D(ex, st, c.args[0])
+
+
+@model(r'^HashMap::<.*>::iter$', r'^HashMap::iter$')
+def m_hm_iter(ex, st, c): return Iter('vec', [Tup(kv) for kv in D(ex, st, c.args[0]).data])
+
+
+@model(r"^<std::collections::hash_map::(Into)?Iter<.*> as Iterator>::next$")
+def m_hm_iter_next(ex, st, c): return m_iter_next(ex, st, c)
 
 
 def install_apply_hooks():
